@@ -273,3 +273,6 @@ def run(ck):
               "value does not depend on which values the thread wrote before",
               key_pred=lambda k: k == "serving-path/static-locals", min_instances=1)
     lib.no_stale_static_rule(ck, "C16-R8", ('http_header.cc', 'http_headers.cc'), "the typed-header readers and writers")
+    ck.borrow("C03", ["C03-R13"], "C16-R9",
+              "every built-in header class has a reader that returns: parse / parseRaw resolve to an override, not to the pair of base-class "
+              "defaults that call each other", min_instances=10)
